@@ -117,9 +117,10 @@ def c07_inline(rec):
         return {"oracle": "handle-retrieval", "detail": f"handles {inl['handles_bad']}"}
     if "obj_re" in inl:
         a, b = obs["obj"], inl["obj_re"]
-        if isinstance(b, str):
-            # the objective overflows / is undefined at the returned point: outside its domain,
-            # there is no value to be consistent with (solvers clamp such values differently)
+        if isinstance(b, str) or abs(b) > 1e100 or any(isinstance(v, str) or abs(v) > 1e100 for v in obs["values"].values()):
+            # the objective overflows / is undefined at (or right next to) the returned point: outside
+            # its floating-point domain there is no value to be consistent with (solvers clamp such
+            # values differently, intermediate inf - inf gives nan).  Magnitudes up to 1e100 are judged.
             return None
         if isinstance(a, str):
             return {"oracle": "objective-value-inconsistent", "detail": f"reported {a} recomputed {b}"}
